@@ -93,7 +93,15 @@ func runC16(c *Ctx) {
 	orderF := m.fieldOf("device", "DriverInfo", "Order")
 	probeF := m.fieldOf("device", "DriverInfo", "Probe")
 	setSink := m.lookupFunc("kfmt", "SetOutputSink")
-	doRealWrite := m.lookupFunc("kfmt", "doRealWrite")
+	// the raw writer behind doWrite (not named by the property): by role, the
+	// kfmt function that takes the writer and an unsafe.Pointer to the bytes
+	doRealWrite := m.funcByRole("kfmt", "doRealWrite", func(fn *ssa.Function) bool {
+		if len(fn.Params) != 2 {
+			return false
+		}
+		bt, ok := fn.Params[1].Type().Underlying().(*types.Basic)
+		return ok && bt.Kind() == types.UnsafePointer
+	})
 	fprintf := m.lookupFunc("kfmt", "Fprintf")
 	sink := m.lookupGlobal("kfmt", "outputSink")
 	early := m.lookupGlobal("kfmt", "earlyPrintBuffer")
